@@ -809,7 +809,9 @@ ProcDecl:
 ProcBody:
         ProcLocalDeclList States LocFlags Init Transitions
 	| ProcLocalDeclList States Branchpoints LocFlags Init Transitions
-	| /* empty */
+	| /* empty */ {
+	  utap_error("$Missing_initial_location");
+	}
         ;
 
 ProcLocalDeclList:
